@@ -387,14 +387,22 @@ class Partitioned(Domain):
 # ---------------------------------------------------------------------------------------------- reaching definitions
 
 
-@dataclass(frozen=True, eq=False)
+@dataclass(eq=False)
 class Def:
+    """One object per definition site (identity semantics). `prev` accumulates monotonically (prior definitions of an
+    augmented assignment / container store), so that loop fix-points converge."""
     kind: str            # 'param' | 'assign' | 'aug' | 'unpack' | 'for' | 'with' | 'store' | 'import' | 'def' | 'except' | 'del'
     name: str
     node: object = None  # the statement
     value: object = None  # value expression (assign), iter expression (for), call (with)
     index: object = None  # tuple position for unpack / for-unpack
-    prev: frozenset = frozenset()  # prior definitions (aug / store: the container still carries them)
+    prev: set = None     # prior definitions (aug / store: the container still carries them)
+
+    def __post_init__(self):
+        if self.prev is None:
+            self.prev = set()
+        else:
+            self.prev = set(self.prev)
 
     def __repr__(self):
         return "<Def %s %s %s>" % (self.kind, self.name, au.short(self.value, 40) if self.value is not None else "")
@@ -417,9 +425,8 @@ class ReachingDefs(Domain):
         if key not in self._cache:
             self._cache[key] = Def(*a, **k)
         d = self._cache[key]
-        if k.get("prev") and not k["prev"] <= d.prev:
-            d = Def(*a, **{**k, "prev": d.prev | k["prev"]})
-            self._cache[key] = d
+        if k.get("prev"):
+            d.prev |= {x for x in k["prev"] if x is not d}
         return d
 
     def join(self, a, b):
@@ -612,9 +619,35 @@ class Origins:
     nodes(expr, at)   -> every expression node that contributes (for pattern queries such as "is there a .copy()").
     """
 
-    def __init__(self, ff: FnFlow, max_depth: int = 25):
+    def __init__(self, ff: FnFlow, max_depth: int = 25, values_only: bool = False):
         self.ff = ff
         self.max_depth = max_depth
+        # values_only: do not follow selectors (the index of x[mask], x.loc[mask, col]): the origin of the *value* is x
+        self.values_only = values_only
+
+    def _walk(self, expr):
+        if not self.values_only:
+            for n in au.walk_local(expr):
+                if isinstance(n, ast.expr):
+                    yield n
+            return
+        stack = [expr]
+        while stack:
+            n = stack.pop()
+            if not isinstance(n, ast.expr):
+                continue
+            yield n
+            if isinstance(n, au.SCOPE_NODES) and n is not expr:
+                continue
+            if isinstance(n, ast.Subscript):
+                stack.append(n.value)
+                if isinstance(n.slice, ast.Constant):
+                    stack.append(n.slice)
+                elif isinstance(n.slice, ast.Tuple):
+                    # frame.loc[mask, 'col']: keep the constant column selectors (they name the value), drop masks
+                    stack.extend(e for e in n.slice.elts if isinstance(e, ast.Constant))
+                continue
+            stack.extend(reversed([c for c in ast.iter_child_nodes(n) if isinstance(c, ast.expr) or isinstance(c, (ast.keyword, ast.comprehension))]))
 
     def expand(self, expr, at=None, _seen=None, _depth=0):
         """Yield (node, env_stmt) for expr and everything it is defined from."""
@@ -625,7 +658,12 @@ class Origins:
         if _depth > self.max_depth:
             return
         env = self.ff.env_at(at)
-        for n in au.walk_local(expr):
+        for n in self._walk(expr):
+            if not isinstance(n, ast.expr):
+                for c in ast.iter_child_nodes(n):   # keyword / comprehension wrappers
+                    if isinstance(c, ast.expr):
+                        yield from self.expand(c, at, _seen, _depth)
+                continue
             yield n, at
             key = None
             if isinstance(n, ast.Name) and isinstance(n.ctx, ast.Load):
